@@ -250,5 +250,9 @@ def analyse_skeleton(I: Interp, pattern: Any, root_role: str = "instr") -> List[
             # deref: the property nodes are transparent wrappers, look through them
             n.tmpl, counts = substitute_children(n.regex, [k for k in kids if flatten(k[1])])
             n.embed_counts = counts  # type: ignore[attr-defined]
+            eq: Dict[str, set] = {}
+            for t1, r1, _ in kids:
+                eq[t1] = {t2 for t2, r2, _ in kids if r2.render() == r1.render()}
+            n.equiv = eq  # type: ignore[attr-defined]
         out.append(Analysed(path, root, path.value, caps, flags))
     return out
